@@ -314,11 +314,27 @@ def bycell_case(draw):
     nd = len(g["n"])
     kind = draw(st.sampled_from(["commensurate", "commensurate", "fractional", "too-large", "nonpositive",
                                  "wrong-length"]))
+    if kind in ("commensurate", "fractional") and draw(st.integers(0, 2)) == 0:
+        # many cells along one axis (mesh construction does not iterate over cells)
+        ax = draw(st.integers(0, nd - 1))
+        big = draw(st.integers(40, 6000))
+        lo, hi = min(g["p1"][ax], g["p2"][ax]), max(g["p1"][ax], g["p2"][ax])
+        cs = (hi - lo) / g["n"][ax]
+        if isinstance(cs, float) and not cs.is_integer() or isinstance(lo, float):
+            new_hi = float(lo + big * cs)
+        else:
+            new_hi = int(lo + big * int(cs))
+        if g["p1"][ax] == hi:
+            g["p1"][ax] = new_hi
+        else:
+            g["p2"][ax] = new_hi
+        g["n"][ax] = big
     c = {"g": g, "kind": kind}
     if kind == "fractional":
         c["axis"] = draw(st.integers(0, nd - 1))
         c["frac"] = draw(st.integers(1, 19)) / 20  # fractional part of the cell count
-        c["m"] = draw(st.integers(1, 4))  # integer part
+        # integer part of the cell count: small, or close to the axis' own count (many cells + remainder)
+        c["m"] = draw(st.one_of(st.integers(1, 4), st.just(max(1, g["n"][c["axis"]] - 1))))
     elif kind == "too-large":
         c["axis"] = draw(st.integers(0, nd - 1))
         c["factor"] = draw(st.sampled_from([1.05, 1.5, 2.0, 10.0]))
